@@ -75,7 +75,7 @@ var reach = []struct {
 	{"share/poly.go", []string{"NewPriPoly", "PriPoly.Threshold", "PriPoly.Eval", "PriPoly.Commit", "PriPoly.Coefficients", "NewPubPoly", "PubPoly.Info", "PubPoly.Threshold", "PubPoly.Commit", "PubPoly.Eval", "PubPoly.Add", "RecoverCommit"}},
 	{"share/dkg/pedersen/pdkg.go", []string{"pdkg.Grouping", "pdkg.GetGroupPublicPoly", "pdkg.GetShareSecurity", "pdkg.GetGroupIDs", "pdkg.GetGroupNumber", "pdkg.GroupDissolve"}},
 	{"share/dkg/pedersen/pdkg_pipes.go", []string{"genPub", "sendToMembers", "askMembers", "genDealsAndSend"}},
-	{"dosnode/dos_stages.go", []string{"choseSubmitter", "genUserRandom", "genSysRandom", "dataParse", "genQueryResult", "dispatchSign", "recoverSign", "drainSigns", "reportQueryResult", "padOrTrim"}},
+	{"dosnode/dos_stages.go", []string{"choseSubmitter", "genUserRandom", "genSysRandom", "dataParse", "jsonDepthExceeds", "xmlDepthExceeds", "genQueryResult", "dispatchSign", "recoverSign", "drainSigns", "reportQueryResult", "padOrTrim"}},
 	{"dosnode/dos_query_handler.go", []string{"DosNode.queryLoop", "DosNode.handleQuery"}},
 	{"dosnode/dos_chain_handler.go", []string{"DosNode.onchainLoop", "DosNode.handleGrouping", "DosNode.groupInfo", "DosNode.handleCR", "byte32", "DosNode.isMember",
 		"DosNode.handleGroupFormation", "DosNode.handleRandom", "DosNode.handleBootstrap", "DosNode.handleGroupDissolve"}},
